@@ -134,6 +134,37 @@ def forLoop {α σ ρ : Type} : List α → σ → (σ → α → ρ ⊕ σ) →
     | .inl r => .inl r
     | .inr s' => forLoop xs s' f
 
+/-! ### `while` loops -/
+
+/-- `while …:` with an explicit fuel (Python has none: running out of fuel stands for a loop that does not end
+and returns the state reached).  One round maps the loop state to `(go_on, new state)`; `go_on = false` is `break`
+or a false loop condition. -/
+def whileSt {σ : Type} : Nat → σ → (σ → Bool × σ) → σ
+  | 0, s, _ => s
+  | f + 1, s, step => if (step s).1 then whileSt f (step s).2 step else (step s).2
+
+/-! ### floats that are quotients of integers (exact) -/
+
+/-- `int(x)` for a float: truncation towards zero -/
+def truncQ (x : Rat) : Int := if 0 ≤ x then x.floor else x.ceil
+
+/-- `math.ceil(x)` -/
+def ceilQ (x : Rat) : Int := x.ceil
+
+/-! ### reductions over lists -/
+
+/-- `max(l)` (`ValueError` for the empty list → `0`) -/
+def maxList (l : List Int) : Int :=
+  match l with
+  | [] => 0
+  | x :: xs => xs.foldl max x
+
+/-- `all(l)` -/
+def all (l : List Bool) : Bool := l.all id
+
+/-- `any(l)` -/
+def any (l : List Bool) : Bool := l.any id
+
 /-! ### external classes -/
 
 /-- `sparseSpACE.ComponentGridInfo.ComponentGridInfo(levelvector, coefficient)`; the coefficient is an `int`
